@@ -46,6 +46,12 @@ def unmangle(s):
         return s
 
 
+def inf_class(numstr):
+    """is this API bound an infinity for the export (which clamps to +-DBL_MAX and prints 6 digits)?"""
+    v = recsolver.num(numstr)
+    return v is None or abs(v) >= 1.797685e308
+
+
 def hx(s):
     b = s.encode('utf-8', errors='surrogateescape') if isinstance(s, str) else s
     return binascii.hexlify(b).decode() if b else '-'
@@ -78,6 +84,7 @@ def py_oracle(recs, d, tab_sizes=None):
     """recs: list of dicts (parsed lines); d: delivered dict.  returns list of reasons (empty = property holds)."""
     bad = []
     vars_, nlobj, nlcon, objs = {}, set(), {}, set()
+    last_var, last_obj = {}, {}
     new, status, groups, links = {}, {}, set(), []
     marked = []
     for r in recs:
@@ -112,6 +119,12 @@ def py_oracle(recs, d, tab_sizes=None):
         elif 'VAR_index' in r:
             i = py_nat(r['VAR_index'])
             vars_.setdefault(i, set()).add(py_nat(r.get('is_from_nl')))
+            b = r.get('bounds')
+            if isinstance(b, list) and len(b) == 2 and all(isinstance(x, (tuple, str)) for x in b) and py_nat(r.get('type')) is not None:
+                binf = lambda x, clamp: 1 if (isinstance(x, str) or x[1] == clamp) else 0
+                last_var[i] = (py_nat(r.get('type')), binf(b[0], '-1.79769e+308'), binf(b[1], '1.79769e+308'))
+            else:
+                bad.append('unknown-record')
         elif 'NL_COMMON_EXPR_index' in r:
             pass
         elif 'NL_OBJECTIVE_index' in r:
@@ -119,7 +132,22 @@ def py_oracle(recs, d, tab_sizes=None):
         elif 'NL_CON_TYPE' in r:
             nlcon.setdefault(py_nat(r.get('index')), set()).add(r['NL_CON_TYPE'])
         elif 'OBJECTIVE_index' in r:
-            objs.add(py_nat(r['OBJECTIVE_index']))
+            i = py_nat(r['OBJECTIVE_index'])
+            objs.add(i)
+            try:
+                lt, qt = r['lin_terms'], r['qp_terms']
+                lv = [py_nat(x) for x in lt['vars']]
+                q1 = [py_nat(x) for x in qt['vars1']]
+                q2 = [py_nat(x) for x in qt['vars2']]
+                okk = (len(lt['coefs']) == len(lv) and len(qt['coefs']) == len(q1) == len(q2) and
+                       all(isinstance(x, (tuple, str)) for x in lt['coefs'] + qt['coefs']) and None not in lv + q1 + q2 and
+                       py_nat(r.get('sense')) is not None)
+            except (KeyError, TypeError):
+                okk = False
+            if okk:
+                last_obj[i] = (py_nat(r['sense']), lv, q1, q2)
+            else:
+                bad.append('unknown-record')
         else:
             bad.append('unknown-record')
     ncons_nl = d['nlAlg'] + d['nlLog']
@@ -195,6 +223,12 @@ def py_oracle(recs, d, tab_sizes=None):
                     ok = False
         if not ok:
             bad.append('bad-link')
+    for i, v in enumerate(d['vars']):
+        if last_var.get(i) != tuple(v):
+            bad.append('delivered-var-differs')
+    for i, o in enumerate(d['objs']):
+        if last_obj.get(i) != tuple(o):
+            bad.append('delivered-obj-differs')
     want = [(c[0], c[2]) for c in d['cons']]
     if marked != want:
         bad.append('delivered-name-mismatch' if [m[0] for m in marked] == [w[0] for w in want] else 'delivered-set-mismatch')
@@ -248,8 +282,21 @@ def finish_case(exe, tab, c, sizes):
             if e['type'] not in tab:
                 c.unknown_types.append(e['type'])
             cons.append((tab.get(e['type'], '?' + e['type']), e['group'], unmangle(e['name'])))
+    dvars = []
+    for e in c.log:
+        if e.get('ev') == 'vars':
+            for lb, ub, ty in zip(e['lb'], e['ub'], e['int']):
+                dvars.append((int(ty), 1 if inf_class(lb) else 0, 1 if inf_class(ub) else 0))
+    oev = {}
+    for e in c.log:
+        if e.get('ev') == 'obj':
+            q = e.get('quad', {'v1': [], 'v2': []})
+            oev[e['i']] = (1 if e['sense'] == 'max' else 0, list(e['lin']['v']), list(q['v1']), list(q['v2']))
+    nobj = (max(objs) + 1) if objs else 0
+    c.obj_gap = [i for i in range(nobj) if i not in oev]
+    dobjs = [oev.get(i, (0, [], [], [])) for i in range(nobj)]
     c.d = dict(sizes)
-    c.d.update({'nVars': nv, 'nObjs': (max(objs) + 1) if objs else 0, 'cons': cons})
+    c.d.update({'nVars': nv, 'nObjs': nobj, 'cons': cons, 'vars': dvars, 'objs': dobjs})
     c.links_final = [e for e in c.log if e.get('ev') == 'link_final']
 
 
@@ -259,7 +306,11 @@ def driver_ops(c):
         ops.append('L ' + hx(l))
     d = c.d
     ops.append('N %d %d %d %d' % (d['nlVars'], d['nlObjs'], d['nlAlg'], d['nlLog']))
-    ops.append('V %d %d' % (d['nVars'], d['nObjs']))
+    for ty, li, ui in d['vars']:
+        ops.append('v %d %d %d' % (ty, li, ui))
+    csv = lambda l: ','.join(str(x) for x in l) if l else '-'
+    for sn, l, q1, q2 in d['objs']:
+        ops.append('o %d %s %s %s' % (sn, csv(l), csv(q1), csv(q2)))
     for ty, g, nm in d['cons']:
         ops.append('C %s %d %s' % (hx(ty), g, hx(nm)))
     ops.append('check')
@@ -304,6 +355,13 @@ def selected_objs(nobj, objno, multi):
 
 def gen_case(r, idx):
     names = r.choice(['off', 'benign', 'benign', 'hostile', 'unicode'])
+    if r.chance(1, 5):
+        # conic family: cone rows + (convex separable) QP objective x cvt:quadobj x cvt:socp x cone types accepted or not
+        m, feats = c20gen.gen_conic_model(r, names=names if names != 'off' else 'benign')
+        acc, opts = c20gen.gen_conic_config(r)
+        if r.chance(1, 10):
+            opts.append('cvt:names=%d' % r.choice([0, 1, 2, 3]))
+        return m, feats, names, acc, opts, 1, 0
     m, feats = c20gen.gen_model(r, size=r.choice(['small', 'small', 'big']), extreme=r.chance(1, 3),
                                 infinite=r.chance(1, 3), names=names if names != 'off' else 'benign')
     acc = c20gen.gen_accept(r)
@@ -462,6 +520,8 @@ def stage_validation(ck, exe, drv, tab, ncases, hist, sample_lines):
                     h.update(open(c.stub + ext, 'rb').read())
             h.update(repr((c.accept, c.options)).encode())
             hist.setdefault('_distinct', set()).add(h.hexdigest())
+        if getattr(c, 'obj_gap', None):
+            ck.add_violation('api:objective-index-gap', 'the ModelAPI received objective indices with gaps: missing %s' % c.obj_gap, replay_obj(c))
         if c.unknown_types:
             ck.add_violation('model-drift:unknown-type', 'delivered constraint types without STORE_CONSTRAINT_TYPE entry: %s' % c.unknown_types,
                              replay_obj(c), found_input=False)
@@ -479,6 +539,10 @@ def stage_validation(ck, exe, drv, tab, ncases, hist, sample_lines):
             hist['record'][v] = hist['record'].get(v, 0) + 1
         for ty, g, nm in c.d['cons']:
             hist['delivered_type'][ty] = hist['delivered_type'].get(ty, 0) + 1
+        orecs = [pr for pr in pyrecs if pr and 'OBJECTIVE_index' in pr]
+        if orecs and any(json.dumps(x.get('qp_terms'), default=str) != json.dumps(y.get('qp_terms'), default=str)
+                         for x in orecs for y in orecs if x['OBJECTIVE_index'] == y['OBJECTIVE_index']):
+            hist['objective_rewritten_after_creation'] = hist.get('objective_rewritten_after_creation', 0) + 1
         for pr in pyrecs:
             if pr and 'data' in pr and 'CON_TYPE' in pr:
                 hist['stored_type'][pr['CON_TYPE']] = hist['stored_type'].get(pr['CON_TYPE'], 0) + 1
